@@ -180,7 +180,7 @@ pub fn check_reveal(h: &CaseH, c: &RevealCase) -> Verdict {
 
 pub fn run_reveals(ctx: &Ctx) {
     ctx.rule("reveals: one positioned wall (rectangle from the origin, or any polygon: counted as frame_ambiguous, not asserted) with one window, setback in [0.01,1]; the 4 occluders linked to the window, mapped back through their stored inverse transform, must coincide within 1 mm with the quads spanned by each window edge on the wall plane and at -setback along the wall normal. Non-trivial: setback >= 0.05.");
-    ctx.run_prop("reveals", ctx.tier().pick(50_000, 1_000_000), reveal_case, check_reveal);
+    ctx.run_prop("reveals", ctx.tier().pick(300_000, 3_000_000), reveal_case, check_reveal);
     ctx.require_class("reveals/wall/vertical");
     ctx.require_class("reveals/wall/other-tilt");
 }
